@@ -205,6 +205,7 @@ func c02Case(run *ev.Run, srv *svc.Server, ic *c02Icept, cs *svc.ClientSet, kind
 	}
 	prog := &svc.Program{}
 	var sent []*gen.Msg
+	badSend := (kind == svc.ServerStream || kind == svc.Bidi) && (src == "handler" || src == "plain") && rr.Intn(4) == 0
 	switch kind {
 	case svc.Unary, svc.ServerStream:
 		prog.Steps = append(prog.Steps, svc.Step{Op: "recv"})
@@ -212,6 +213,11 @@ func c02Case(run *ev.Run, srv *svc.Server, ic *c02Icept, cs *svc.ClientSet, kind
 		prog.Steps = append(prog.Steps, svc.Step{Op: "recvall"})
 	case svc.Bidi:
 		prog.Steps = append(prog.Steps, svc.Step{Op: "recv"})
+	}
+	if badSend {
+		// a Send that fails in the codec (invalid UTF-8 in a string field) must
+		// not disturb the delivery of the error the handler returns afterwards
+		prog.Steps = append(prog.Steps, svc.Step{Op: "send", Msg: &gen.Msg{Id: 13, Note: "\xff\xfe"}})
 	}
 	for i := 0; i < before; i++ {
 		m := &gen.Msg{Id: uint64(1000 + i), Note: "before-error"}
@@ -243,12 +249,15 @@ func c02Case(run *ev.Run, srv *svc.Server, ic *c02Icept, cs *svc.ClientSet, kind
 	ok, dump := watchdog(60*time.Second, func() {
 		cl = cs.Do(context.Background(), kind, call.ID, nil, []*gen.Msg{{Id: 7}, {Id: 8}})
 	})
-	run.Eval(fmt.Sprintf("%s|%d|%s|%s|%d|%d", cfg, code, className, src, k, before))
+	run.Eval(fmt.Sprintf("%s|%d|%s|%s|%d|%d|%v", cfg, code, className, src, k, before, badSend))
+	if badSend {
+		run.Count("errors.after_failed_send", 1)
+	}
 	if !ok {
 		run.Violation(key+"/hang", "call did not return within 60 s", trunc(dump, 20000))
 		return
 	}
-	detail := map[string]any{"config": cfg, "code": code.String(), "text_class": className, "text": text, "source": src, "details": k, "before": before,
+	detail := map[string]any{"config": cfg, "code": code.String(), "text_class": className, "text": text, "source": src, "details": k, "before": before, "failed_send_first": badSend,
 		"client_err": errStr(cl.Err), "client_msgs": gen.DescribeSeq(cl.Msgs), "meta_sent": meta}
 	if cl.Err == nil {
 		run.Violation(key+"/delivered-as-success", "handler error was delivered to the client as success", detail)
